@@ -543,7 +543,9 @@ public:
 
     Matrix eigenvectors()
     {
-        return m_evectors;
+        // m_evectors holds the coefficients of the last Rayleigh-Ritz step;
+        // the approximate eigenvectors themselves are the columns of X
+        return Matrix(X);
     }
 
     Matrix residuals()
